@@ -390,6 +390,11 @@ func genSessFacts(repo, out string) error {
 	if err := sfTeardown(fset, repo, &b); err != nil {
 		return err
 	}
+	// ---- does the server's teardown wait for user connections; the heartbeat settings on their way from the text to
+	// the watchdog (gen_sessfacts_live.go)
+	if err := sfLive(fset, repo, &b); err != nil {
+		return err
+	}
 	b.WriteString("\nend Frp.Gen.SessFacts\n")
 	return os.WriteFile(filepath.Join(out, "SessFacts.lean"), []byte(b.String()), 0o644)
 }
